@@ -93,6 +93,9 @@ pub fn run_check(id: &str, report: &mut Report, budget: Duration) -> bool {
             report.add("evaluations", n);
             report.add("distinct_nontrivial", n);
             report.set("evaluation_fault_cases", n);
+            let n = e6::c03_slice(report);
+            report.add("evaluations", n);
+            report.set("end_to_end_agent_runs", n);
         }
         "C16" => c16::run(report),
         "C08" => c08::run(report),
